@@ -9,7 +9,7 @@
    without optimisation.  The UnambiguousRepeat rewrite of Sequence::optimize: whenever no position at
    which the repeated term matches can start a match of what follows, the sequence has exactly the
    same results (as lists) with the backtracking fixed-length repeat and with the non-backtracking
-   one; and for a repeat of a single character or class followed by a literal or class, matching
+   one; and for a repeat of a single character or class followed by a literal, a class or $, matching
    case-sensitively, the compiler's own decision (no_ambiguity, through is_disjoint with its give-up
    threshold and the first-character sets) implies that condition.  Not proved: that decision for
    other followers and under flag i, the repeat simplifications, positional preconditions, the
